@@ -22,6 +22,7 @@ EXPLANATION = (
     "appended by add_nan_trace; (D6) spikes are admissible strictly inside the margins and each unit draws min(max_wf, n) "
     "without replacement. Equality with the source traces and chunk/worker independence of values are NOT decided."
     " (D6 as built) the admissibility mask is normalised to sample OP bound by linear algebra; arithmetic on the caller's spike-sample array before a signed cast is refused (unsigned spike times wrap); per-unit candidates may be selected by mask or by one stable sort + searchsorted grouping."
+    ' (D4 as built) a block store rows[X[0]:X[-1]+1] needs a guard establishing that X is an increasing consecutive run (span == count alone is not enough); pairwise chunk bounds zip(B[:-1], B[1:]) are accepted.'
 )
 ASSUMPTIONS = [
     "np.arange(a, b, k)[i] == a + i*k; rng.choice(replace=False) returns distinct elements; stable argsort of group codes is a permutation",
